@@ -4,6 +4,7 @@ import (
 	"bytes"
 	"fmt"
 	"io"
+	"sync/atomic"
 	"testing"
 
 	lz4 "github.com/pierrec/lz4/v4"
@@ -307,6 +308,8 @@ func zeroPatch(data []byte, what string, bs int) bool {
 	return false
 }
 
+var c09CLICount atomic.Int64
+
 func runC09(c c09Case, rec *stat.Rec) *stat.Failure {
 	data := c.Data.Build()
 	bs := c.Opts.blockSize()
@@ -324,6 +327,16 @@ func runC09(c c09Case, rec *stat.Rec) *stat.Failure {
 	}
 	if f := checkStrictFrame("C09", z, data, c.Opts, false); f != nil {
 		return f
+	}
+	// one case in sixteen (and every pinned one) is also handed to the reference command line tool, when this machine has one
+	if refCLI() != "" && len(z) <= 32<<20 {
+		if k := c09CLICount.Add(1); k%16 == 1 || len(c.Prev) > 0 && k%4 == 1 {
+			ok, out, msg := refCLIDecode(z)
+			rec.Class("reference-cli/decoded-the-frame")
+			if !ok || !bytes.Equal(out, data) {
+				return stat.Failf("C09/reference-cli-does-not-decode-the-frame", "%s, entry %s, %d bytes in, frame of %d bytes: `lz4 -d` ok=%v, %d bytes out: %s", c.Opts, c.Entry, len(data), len(z), ok, len(out), firstWords(msg, 12))
+			}
+		}
 	}
 	fr := ref.ParseFrame(z, ref.Strict)
 	raw, comp := 0, 0
